@@ -267,6 +267,10 @@ class Engine:
         # the universal query is undecided: look for a counterexample at the point instantiations the harness
         # offers (each is again a solver query; a sat answer is a concrete input, replayed like any other)
         for k, ph in enumerate((info or {}).get('probe', [])):
+            if callable(ph):
+                ph = ph()
+                if ph is None:
+                    continue
             r, s = self.check(neg, *[tob(h) for h in ph], with_axioms=True, timeout_ms=min(to or self.timeout_ms, 20000))
             if r == 'sat':
                 return Outcome(name, 'cex', s.model(), info, list(self.decisions), 'probe%d' % k, sexpr=_short(zs))
